@@ -134,15 +134,18 @@ class RemoteState(dict):
             if patches is not None and name in patches:
                 sub = patches[name]
                 if isinstance(sub, dict):
-                    sub_patches.append(RemoteState._patches_t(it + len(sub_patches), name, sub))
+                    sub_patches.append(RemoteState._patches_t(it, name, sub))
                     dummy = False
 
             if dummy:
                 sub_patches.append(RemoteState._patches_t(-1, None, {}))
         
         if sub_patches:
-            cls._active_contexts.stack[it+1:it+1] = sub_patches
-            cls.increment_patches_iter()
+            # the children are restored one after another in the order of `names`, each of them completely
+            # (with its own children) before the next one: the entry of the child which comes next stays on top,
+            # all of them belong to the current entry (`it`)
+            cls._active_contexts.stack[it+1:it+1] = reversed(sub_patches)
+            cls.set_patches_iter(it + len(sub_patches))
 
     @staticmethod
     def recreate_obj_and_patch_setstate(newobj, newargs, children_names):
